@@ -187,10 +187,14 @@ type machine struct {
 
 const (
 	nProviders = 5 // provider indices 0..4
-	nServices  = 2
+	nServices  = 3
 )
 
-func svcName(i int) string { return fmt.Sprintf("svc%d", ((i%nServices)+nServices)%nServices) }
+// svcNames: two services and a third whose name differs from the first by letter case only (names are compared byte
+// for byte: they are three services).
+var svcNames = [nServices]string{"svc0", "svc1", "Svc0"}
+
+func svcName(i int) string { return svcNames[((i%nServices)+nServices)%nServices] }
 
 func bindKey(svc string, prov int) string { return fmt.Sprintf("%s|%d", svc, prov) }
 
